@@ -142,6 +142,7 @@ func appendSnapshotPackages(b []byte, s *slip.Scope) []byte {
 		sort.Slice(defs, func(i, j int) bool {
 			return defs[i].Name < defs[j].Name
 		})
+		defs = usedFirst(defs)
 		for _, p := range defs {
 			form := slip.List{slip.Symbol("defpackage"), slip.String(p.Name)}
 			if 0 < len(p.Doc) {
@@ -170,8 +171,46 @@ func appendSnapshotPackages(b []byte, s *slip.Scope) []byte {
 			}
 			b = pp.Append(b, s, form)
 		}
+		// The user package is not defined by the snapshot, the packages
+		// defined here that it was made to use are given to it again.
+		for _, u := range slip.UserPkg.Uses {
+			for _, p := range defs {
+				if p == u {
+					b = pp.Append(b, s, slip.List{
+						slip.Symbol("use-package"),
+						slip.String(u.Name),
+						slip.String(slip.UserPkg.Name),
+					})
+				}
+			}
+		}
 	}
 	return b
+}
+
+// usedFirst returns the packages, ordered by name, with the packages a
+// package uses placed before the package itself.
+func usedFirst(defs []*slip.Package) (ordered []*slip.Package) {
+	placed := map[*slip.Package]bool{}
+	var place func(p *slip.Package)
+	place = func(p *slip.Package) {
+		if placed[p] {
+			return
+		}
+		placed[p] = true
+		for _, u := range p.Uses {
+			for _, d := range defs {
+				if d == u {
+					place(d)
+				}
+			}
+		}
+		ordered = append(ordered, p)
+	}
+	for _, p := range defs {
+		place(p)
+	}
+	return
 }
 
 func appendSnapshotConstants(b []byte, s *slip.Scope) []byte {
@@ -529,8 +568,14 @@ func hasDefinition(fi *slip.FuncInfo) bool {
 }
 
 func appendSnapshotFunctions(b []byte, s *slip.Scope) []byte {
-	// Skip locked and imported packages.
-	for _, p := range slip.AllPackages() {
+	// Skip locked and imported packages. The packages are taken by name,
+	// the order they were made in is not the same after a load.
+	pkgs := slip.AllPackages()
+	sort.Slice(pkgs, func(i, j int) bool {
+		return pkgs[i].Name < pkgs[j].Name
+	})
+	// The functions of a package may call those of the packages it uses.
+	for _, p := range usedFirst(pkgs) {
 		if isCorePackage(p) {
 			continue
 		}
@@ -554,8 +599,9 @@ func appendSnapshotFunctions(b []byte, s *slip.Scope) []byte {
 			})
 			fia = macrosFirst(fia)
 			b = append(b, '\n')
+			// The functions are defined in their package.
 			b = pp.Append(b, s, slip.List{
-				slip.Symbol("use-package"),
+				slip.Symbol("in-package"),
 				slip.String(p.Name),
 			})
 			for _, fi := range fia {
@@ -566,7 +612,7 @@ func appendSnapshotFunctions(b []byte, s *slip.Scope) []byte {
 	}
 	b = append(b, '\n')
 	b = pp.Append(b, s, slip.List{
-		slip.Symbol("use-package"),
+		slip.Symbol("in-package"),
 		slip.String(slip.CurrentPackage.Name),
 	})
 	return b
